@@ -4,6 +4,7 @@ import (
 	"bytes"
 	"context"
 	"fmt"
+	"reflect"
 	"testing"
 	"testing/cryptotest"
 
@@ -79,6 +80,20 @@ func executeKeySet(t *testing.T, prop string, seed uint64, p *KeySetPlan) *core.
 			return res
 		}
 	}
+	// A server process hands the same key slice to every connection: before the
+	// connection under test, another client uses another key of the list
+	// ("decoy"; every other list of the enumeration).
+	decoys := map[int]*built{}
+	if !p.Unlisted {
+		for i := 1; i < len(pool); i++ {
+			db := base
+			db.Target, db.Keys, db.Mutations = pool[i], []KeySpec{pool[i]}, nil
+			db.SuiteIdx = 0
+			if d, derr := buildScript(core.Mix(seed, "decoy", i), &db); derr == nil {
+				decoys[i] = d
+			}
+		}
+	}
 	lists := permLists(len(pool))
 	if p.OnlyList != nil {
 		lists = [][]int{p.OnlyList}
@@ -91,7 +106,7 @@ func executeKeySet(t *testing.T, prop string, seed uint64, p *KeySetPlan) *core.
 			sameID++
 		}
 	}
-	for _, l := range lists {
+	for li, l := range lists {
 		var specs []KeySpec
 		has := false
 		for _, i := range l {
@@ -109,11 +124,40 @@ func executeKeySet(t *testing.T, prop string, seed uint64, p *KeySetPlan) *core.
 			}
 			res.Fail(prop, class, site, what+": "+f, a...)
 		}
+		ks := echKeys(specs)
+		opts := keyOptions(ks)
+		if li%2 == 1 && len(l) > 1 {
+			opts = []ech.Option{ech.WithKeys(ks)}
+			pristine := echKeys(specs)
+			di := l[len(l)-1]
+			if di == 0 {
+				di = l[0]
+			}
+			if d := decoys[di]; d != nil {
+				dsc := simnet.NewScript(d.outerRec)
+				dsc.NoEOF = true
+				var dconn *ech.Conn
+				var derr error
+				if pk, m, s := core.Guard(func() { dconn, derr = ech.NewConn(context.Background(), dsc, opts...) }); pk {
+					fail("panic", s+": "+normMsg(m), "NewConn (earlier connection to another key of the list)")
+					continue
+				}
+				if derr != nil || !dconn.ECHAccepted() {
+					fail("acceptance-depends-on-other-keys", "an earlier connection to another key of the same list is not accepted", "key %d of the pool: err=%v", di, derr)
+					continue
+				}
+				res.Probe("earlier_connection_other_key")
+				if !reflect.DeepEqual(ks, pristine) {
+					fail("key-list-modified", "NewConn modified the caller's key list", "after a connection to key %d of the pool", di)
+					continue
+				}
+			}
+		}
 		sc := simnet.NewScript(b.outerRec)
 		sc.NoEOF = true
 		var conn *ech.Conn
 		var err error
-		if pk, m, s := core.Guard(func() { conn, err = ech.NewConn(context.Background(), sc, keyOptions(echKeys(specs))...) }); pk {
+		if pk, m, s := core.Guard(func() { conn, err = ech.NewConn(context.Background(), sc, opts...) }); pk {
 			fail("panic", s+": "+normMsg(m), "NewConn")
 			continue
 		}
